@@ -76,6 +76,7 @@ def small_scope_trees(ctx):
     for x, y in itertools.product(pa, repeat=2):
         yield ["and", ["m", x], ["m", y]]
         yield ["or", ["m", x], ["m", y]]
+    yield from resolution_trees()
     ea = [f'extra {op} "{n}"' for op in ("==", "!=") for n in ("a", "b", "Foo_Bar")]
     for x, y, z in itertools.product(ea, repeat=3):
         yield ["or", ["and", ["m", x], ["m", y]], ["m", z]]
@@ -241,14 +242,14 @@ def _flat_union(rnd, tag, k, extra=None):
     return _chain("or", atoms)
 
 
-def heavy_trees(rnd, n, first=0):
+def heavy_trees(rnd, n, first=0, ks=(7, 9, 9)):
     """Sizes at which the library switches from 'instant' to 'seconds': (a) an intersection of three flat k-way
     unions (term products of 500-700 combinations) with one `extra` alternative in each operand - extras are the
     one variable for which two different `==` atoms can hold together; (b) a union over more than ten distinct
     atoms that contains a conjunction and its operand-order twin in different operands."""
     for i in range(first, first + n):
         if i % 2 == 0:
-            k = rnd.choice([7, 9, 9])
+            k = rnd.choice(list(ks))
             a, b, c = (_flat_union(rnd, t, k, e) for t, e in (("a", "x"), ("b", "y"), ("c", "z")))
             yield rnd.choice([["and", ["and", a, b], c], ["and", c, ["and", a, b]], ["and", ["and", a, c], ["and", b, c]]])
         else:
@@ -269,11 +270,12 @@ def size_strata(ctx, run_tree, light=False):
     n_tw = 0
     t_tw = ctx.elapsed()
     for t in twin_trees(rnd, (8 if light else 24) if q else (150 if light else 400), kmax=2 if light else 3):
-        if ctx.elapsed() - t_tw > ((10 if light else 20) if q else 200):
+        if ctx.elapsed() - t_tw > ((10 if light else 20) if q else (100 if light else 200)):
             break
         run_tree(t)
         n_tw += 1
     ctx.extra["order_twin_cases"] = n_tw
+    ctx.extra["order_twin_seconds"] = round(ctx.elapsed() - t_tw, 1)
     ctx.stratum = "wide"
     n_w = 0
     t_w = ctx.elapsed()
@@ -283,14 +285,16 @@ def size_strata(ctx, run_tree, light=False):
         run_tree(t)
         n_w += 1
     ctx.extra["wide_compound_cases"] = n_w
+    ctx.extra["wide_compound_seconds"] = round(ctx.elapsed() - t_w, 1)
     ctx.stratum = "heavy"
     n_h = 0
     t_h = ctx.elapsed()
     ctx.watchdog_floor = 45.0
     ctx.boundary_only = True
     try:
-        for t in heavy_trees(rnd, 1 if q else 16, first=ctx.shard + ctx.seed):
-            if ctx.elapsed() - t_h > (40 if ctx.tier == "quick" else 300):
+        # (the 9-way products - 500+ children - are C02's in the quick tier; the other checks pay per child)
+        for t in heavy_trees(rnd, 1 if q else 16, first=ctx.shard + ctx.seed, ks=(7, 9, 9) if (light or not q) else (6, 7)):
+            if ctx.elapsed() - t_h > (40 if q else (150 if light else 300)):
                 break
             run_tree(t)
             n_h += 1
@@ -298,7 +302,41 @@ def size_strata(ctx, run_tree, light=False):
         ctx.watchdog_floor = 0
         ctx.boundary_only = False
     ctx.extra["heavy_cases"] = n_h
+    ctx.extra["heavy_seconds"] = round(ctx.elapsed() - t_h, 1)
     ctx.stratum = "main"
+
+
+def resolution_trees():
+    """Clause sets on which the simplifiers perform a resolution / consensus step when a variable is eliminated:
+    (X or p or e1) and (X or q or e2) [and (e1 or e2)] [and y] with p & q empty, X an atom or a group, e1/e2 atoms of
+    the variable that is then excluded - and the dual DNF shape - as parsed, self-combined (m | m, m & m), and then
+    under exclude / only / without_extras."""
+    Xs = ['os_name == "a"', 'os_name == "a" or os_name == "b"', 'os_name != "a" and os_name != "b"', 'os_name in "ab"']
+    PQ = [('sys_platform == "linux"', 'sys_platform == "win32"'), ('python_version < "3.8"', 'python_version >= "3.8"'),
+          ('sys_platform == "s"', 'sys_platform != "s"')]
+    Es = [("extra", 'extra == "e1"', 'extra == "e2"'), ("platform_machine", 'platform_machine == "m1"', 'platform_machine == "m2"')]
+    Ys = [None, 'implementation_name == "cpython"', 'python_full_version >= "3.6.1"']
+    for X, (p, q), (ev, e1, e2), y, with_e, dual in itertools.product(Xs, PQ, Es, Ys, (True, False), (False, True)):
+        inner, outer = (" or ", " and ") if not dual else (" and ", " or ")
+        if dual:   # groups keep their own connective inside parentheses
+            X_ = f"({X})"
+            p, q = q, p
+        else:
+            X_ = f"({X})"
+        clauses = [f"({inner.join([X_, p, e1])})", f"({inner.join([X_, q, e2])})"]
+        if with_e:
+            clauses.append(f"({inner.join([e1, e2])})")
+        if y:
+            clauses.append(y)
+        m = ["m", outer.join(clauses)]
+        others = [v for v in ("os_name", "sys_platform", "python_version", "implementation_name", "python_full_version",
+                              "extra", "platform_machine") if v != ev and v in m[1]]
+        for base in (m, ["or", m, m], ["and", m, m]):
+            yield ["exclude", base, ev]
+            yield ["only", base, others]
+            if ev == "extra":
+                yield ["noextras", base]
+            yield ["exclude", ["exclude", base, ev], "sys_platform"]
 
 
 def run_trees(ctx, run_tree, *, n_random, max_atoms, unary_p=0.3, small_frac=1.0, cfg=None, seconds=None):
@@ -322,6 +360,7 @@ def run_trees(ctx, run_tree, *, n_random, max_atoms, unary_p=0.3, small_frac=1.0
         run_tree(t)
         cnt += 1
     ctx.extra["small_scope_cases"] = cnt
+    ctx.extra["small_scope_seconds"] = round(ctx.elapsed() - t_small, 1)
     size_strata(ctx, run_tree)
     ctx.stratum = "main"
     cfg = cfg or MW.Cfg()
